@@ -1,5 +1,6 @@
 """C05 - GOTO/GOSUB/RETURN, ON ERROR/RESUME: resume-address and error-code kernels (DESIGN 4/C05)."""
 from vklib import Builder
+import vmstep
 
 # every variant of RuntimeError, constructed with the smallest payload
 RT_VARIANTS = """
@@ -104,7 +105,8 @@ def error_code_harnesses(b, err, prefix):
 
 def spec(tier, seed):
     b = Builder("C05")
-    main = b.file("rusty_basic/src/interpreter/main.rs", "rusty_basic", "interpreter::main")
+    main = b.file("rusty_basic/src/interpreter/main.rs", "rusty_basic", "interpreter::main",
+                  uses="    use crate::instruction_generator::AddressOrLabel;\n")
     sizes = [1, 2, 3, 4] + ([5, 6, 7] if tier == "thorough" else [])
     for n in [1, 2, 3, 4, 5, 6, 7]:
         t = "quick" if n <= 4 else "thorough"
@@ -144,6 +146,10 @@ def spec(tier, seed):
               functions=["rusty_basic::interpreter::main::NearestStatementFinder::new",
                          "rusty_basic::interpreter::main::NearestStatementFinder::find_current",
                          "rusty_basic::interpreter::main::NearestStatementFinder::find_next"])
+
+    # (one-VM-step harnesses over Interpreter::interpret_one were built and probed - harness/vmstep.py - but symbolic execution
+    # alone did not finish in 600 s: CBMC walks every arm of the 90-way instruction match, including the hash-map based ones,
+    # even when the instruction is concrete.  They are not part of the check; see DESIGN 4/C05.)
 
     err = b.file("rusty_basic/src/interpreter/error.rs", "rusty_basic", "interpreter::error")
     error_code_harnesses(b, err, "vk_c05")
